@@ -1,4 +1,4 @@
-"""schedx (DESIGN.md §2.3, E3) — stateless explorer of analysis worklist schedules.
+"""schedx (DESIGN.md §2.3, E3) — explorer of analysis worklist schedules.
 
 `ForwardAnalysis.run` / `BackwardAnalysis.run` (cfg/analysis.py) pop their worklist
 from `queue = set(bbs)`; `BB` hashes by identity, so the pop order is a function of
@@ -14,10 +14,17 @@ Model
 * At each `pop()` the elements are ordered canonically by `bb.idx`; a *choice* is an
   index into that order, so choice sequences are meaningful and replayable.  The
   default schedule always takes choice 0.
-* The explorer is **stateless**: it never snapshots the analysis, it re-runs the thunk
-  from scratch, replays a recorded choice prefix and then takes choice 0 until the
-  invocation terminates or a known state is hit (then the execution is aborted with a
-  BaseException that unwinds through `run()` and the thunk).
+* The reference strategy (`strategy="replay"`, the default) is **stateless**: it never
+  snapshots the analysis, it re-runs the thunk from scratch, replays a recorded choice
+  prefix and then takes choice 0 until the invocation terminates or a known state is
+  hit (then the execution is aborted with a BaseException that unwinds through `run()`
+  and the thunk).  DFS over choice sequences.
+* `strategy="inplace"` performs the same DFS inside ONE execution per invocation by
+  putting `vals_before` / `vals_after` / the worklist back to a saved state (see the
+  comment above `_ip_restore` for the one extra assumption and its runtime guard).  It
+  exists because a pipeline execution costs ~20 ms instead of ~30 us; C09 cross-checks
+  on a complete bound that both strategies report identical states, transitions,
+  pruned/complete counts, path counts, final results and witnesses.
 * **State deduplication.**  At each `pop()` (and at the terminating `len(queue) == 0`)
   the explorer reads `vals_before`, `vals_after` (forward analyses only) and the queue
   from the caller's frame (`sys._getframe(1).f_locals`, the caller being `run`).  The
@@ -58,6 +65,13 @@ Model
   state: a state is re-expanded when it is reached again with a larger budget, and the
   witness kept for a final result is one with the fewest deviations).
   `max_deviations=None` explores every schedule.
+* `memo=True` reuses the exploration of an invocation whose inputs
+  (`analysis_fingerprint`: class, parameters, blocks, edges, flags, stat keys, initial
+  values) and budget were explored before in this `explore()` call — the same function
+  is analysed again in every branch of the product.  *Chain continuation*: when an
+  invocation turns out to have a single final result reached by the default order, the
+  same execution goes on to the next invocation instead of being aborted and re-run.
+  Both are economies only; the explored tree is the same.
 * Replays are validated: a scripted invocation must offer the recorded choices, end
   exactly where the witness ends and produce the recorded fine result, otherwise
   `ReplayDivergence` is raised (nondeterminism that is not routed through the hook).
@@ -66,6 +80,17 @@ Reported per invocation: states, transitions (state, choice) executed, execution
 complete schedules executed, number of distinct complete schedules represented by the
 state graph (path count; None if the graph is cyclic = a non-terminating order
 exists), distinct final results (fine and coarse).
+
+API
+---
+  explore(thunk, *, max_deviations=None, dedup=True, branch="fine", strategy="replay",
+          memo=False, explore_filter=None, explore_invocations=None, outcome_of=None,
+          describe=None) -> ExploreResult(invocations=[InvocationReport], outcomes={...})
+  run_with_schedule(thunk, script)            one run under fixed choices (replays)
+  pipeline_outcome(src, fn)                   load + compile_function, comparable value
+  explore_program_schedules(src, fn, max_deviations) -> {"outcomes": {outcome: script},
+                                                         "result": ExploreResult}
+Requires CQCL_GUPPYLANG_VERIF=1 (bin/check sets it); never touches /repo.
 """
 from __future__ import annotations
 
